@@ -460,6 +460,11 @@ def register7(R, P):
         "all(implies(is_item(n) and key(n) in obj(n).data, obj(n).data[key(n)] == old(obj(n).data[key(n)])) for n in every('node'))",
         "all(implies(is_item(n), (key(n) in obj(n).input_keys) == (old(key(n) in obj(n).input_keys) and n not in _done)) for n in every('node'))",
     ]
+    R.contract("extern::TraceManager._clear_in_other_model", trusted=True,
+        note="the branch for a dependant that belongs to ANOTHER model (static helper): outside the scope of these proofs -- their precondition OWN "
+             "(every node of this graph belongs to this model) makes the call unreachable, which is what the call-site obligation states; "
+             "cross-model dependants are covered by the bounded drivers of C06 / C19",
+        params={"node": "node"}, requires=["UNREACHABLE-IN-SINGLE-MODEL-SCOPE:: False"], ensures=[], modifies=[], alloc=True)
     R.contract(M + "::TraceManager.clear_obj",
         params={"self": "ModelImpl", "obj": "NodeObj"},
         requires=PRE,
